@@ -443,6 +443,14 @@ func (opts *indexOpts) indexBuildDescList(ctx context.Context, rc *regclient.Reg
 		}
 		platforms = append(platforms, p)
 	}
+	var descPlat *platform.Platform
+	if opts.descPlatform != "" {
+		p, err := platform.Parse(opts.descPlatform)
+		if err != nil {
+			return nil, fmt.Errorf("failed to parse desc-platform %s: %w", opts.descPlatform, err)
+		}
+		descPlat = &p
+	}
 
 	// copy each ref by digest to the destination repository
 	if opts.digests == nil {
@@ -503,13 +511,10 @@ func (opts *indexOpts) indexBuildDescList(ctx context.Context, rc *regclient.Reg
 			return nil, err
 		}
 		desc := mDig.GetDescriptor()
-		plat := &platform.Platform{}
-		if opts.descPlatform != "" {
-			*plat, err = platform.Parse(opts.descPlatform)
-		} else {
-			plat, err = indexGetPlatform(ctx, rc, rDig, mDig)
-		}
-		if err == nil {
+		if descPlat != nil {
+			plat := *descPlat
+			desc.Platform = &plat
+		} else if plat, err := indexGetPlatform(ctx, rc, rDig, mDig); err == nil {
 			desc.Platform = plat
 		}
 		if len(descAnnotations) > 0 {
